@@ -1,7 +1,9 @@
 #!/bin/bash
-# usage: seed_confirm_all.sh P1 P2 ... ; uses /tmp/seed/<P> worktrees and /tmp/seedwork/<P> deliveries
-for p in "$@"; do
-  pkg=$(python3 -c "import json;print(json.load(open('/tmp/seedwork/$p/meta.json')).get('demo_pkg','.'))")
-  echo "##### $p pkg=$pkg"
-  /verif/tools/seed_confirm.sh ${p}a $p $pkg /tmp/seed/$p /tmp/seedwork/$p
+# usage: seed_confirm_all.sh N1 N2 ... ; a name is a property id optionally followed by a letter (C01, C01b);
+# uses /tmp/seed/<name> worktrees and /tmp/seedwork/<name> deliveries
+for n in "$@"; do
+  p=${n:0:3}
+  pkg=$(python3 -c "import json;print(json.load(open('/tmp/seedwork/$n/meta.json')).get('demo_pkg','.'))")
+  echo "##### $n (property $p) pkg=$pkg"
+  /verif/tools/seed_confirm.sh $n $p $pkg /tmp/seed/$n /tmp/seedwork/$n
 done
